@@ -12,7 +12,12 @@ def decode(string):
   validate_all_printable(string)
   try:
     # NaN, Infinity and -Infinity are accepted by json.loads, but are not JSON
-    return json.loads(string, parse_constant = _reject_constant)
+    obj = json.loads(string, parse_constant = _reject_constant)
+    if not (isinstance(obj, list) or isinstance(obj, dict)):
+      raise gfapy.FormatError(
+        "{} is not a valid JSON field\n".format(repr(string))+
+        "(it is not a JSON array or object)")
+    return obj
   except gfapy.Error:
     raise
   except Exception as err:
